@@ -40,6 +40,14 @@ Theorem c09_simple_roundtrip : forall g bytes,
   /\ zlen bytes mod 2 = 0.
 Proof. exact simple_roundtrip. Qed.
 
+(* exactly which simple glyphs are accepted: < 32767 contours, < 65535 instruction bytes, every cumulative
+   point count in 1..65535 (first contour non-empty, <= 65535 points), successive deltas representable *)
+Theorem c09_simple_accepted : forall g,
+  sglyph_ok g -> zlen (g_contours g) < 32767 -> zlen (g_instr g) < 65535 ->
+  cum_ok 0 (g_contours g) -> deltas_fit 0 0 (concat (g_contours g)) ->
+  exists bytes, write_simple 0 g = Some bytes.
+Proof. exact simple_accepted. Qed.
+
 Theorem c09_pad_even : forall before l, (before + zlen (pad2 before l)) mod 2 = 0.
 Proof. exact pad2_total_even. Qed.
 
@@ -85,15 +93,23 @@ Theorem c09_component_roundtrip : forall c extra rest k, comp_ok c -> In extra [
   = (F, c_gid c, c_anchor c, c_tr c) :: (if has extra MORE then read_comps k rest else [])
   /\ (has F ROUND_XY, has F USE_MY_METRICS, has F SCALED_OFF, has F UNSCALED_OFF, has F OVERLAP) = c_uflags c.
 Proof. exact comp_roundtrip. Qed.
-(* FULL STATEMENT (not proved in Coq, checked by correspondence + oracle): for every composite glyph g,
-     read_glyph (write_composite 0 g) = RComposite bbox (exp_comps comps lastf) (instructions).
-   PROVED PART: the component list of any non-empty composite is read back exactly by ComponentIter,
-   which stops before the instruction bytes / padding that follow.  Missing: the 10-byte header/bbox
-   and count_and_instructions (ComponentGlyphIdFlagsIter) parts. *)
-Theorem c09_composite_components_roundtrip_partial : forall cs c lastf tail k,
+(* the component list of any non-empty composite is read back exactly by ComponentIter, which stops
+   before the instruction bytes / padding that follow *)
+Theorem c09_composite_components_roundtrip : forall cs c lastf tail k,
   Forall comp_ok (c :: cs) -> In lastf [0; 256] -> (length (c :: cs) <= k)%nat ->
   read_comps k (comps_bytes (c :: cs) lastf ++ tail) = exp_comps (c :: cs) lastf.
 Proof. exact comps_roundtrip. Qed.
+(* every composite glyph with >= 1 component and < 65536 instruction bytes is accepted and Glyph::read gives
+   back the bounding box, all components (ids, flag words incl. the user flags and MORE_COMPONENTS on all
+   but the last, anchors, 2.14 transforms) and the instruction bytes (count_and_instructions); even length *)
+Theorem c09_composite_roundtrip : forall g c cs,
+  cg_comps g = c :: cs -> Forall comp_ok (c :: cs) -> bbox_ok (cg_bbox g) -> zlen (cg_instr g) <= 65535 ->
+  let lastf := if zlen (cg_instr g) =? 0 then 0 else HAVE_INSTR in
+  exists bytes, write_composite 0 g = Some bytes
+    /\ read_glyph bytes = Some (RComposite (bbox_list (cg_bbox g)) (exp_comps (c :: cs) lastf)
+                                           (if zlen (cg_instr g) =? 0 then None else Some (cg_instr g)))
+    /\ zlen bytes mod 2 = 0.
+Proof. exact composite_roundtrip. Qed.
 
 Print Assumptions c09_flags_rle_roundtrip.
 Print Assumptions c09_deltas_accepted.
@@ -106,4 +122,6 @@ Print Assumptions c09_builder_glyph_i.
 Print Assumptions c09_delta_choice_shortest.
 Print Assumptions c09_flags_rle_run_length.
 Print Assumptions c09_component_roundtrip.
-Print Assumptions c09_composite_components_roundtrip_partial.
+Print Assumptions c09_composite_components_roundtrip.
+Print Assumptions c09_composite_roundtrip.
+Print Assumptions c09_simple_accepted.
